@@ -9,10 +9,11 @@ from collections import namedtuple
 
 from ural.utils import pathsplit, safe_urlsplit, SplitResult
 from ural.patterns import DOMAIN_TEMPLATE
+from ural.get_hostname import get_hostname
 
 INSTAGRAM_POST_SHORTCODE_RE = re.compile(r"^[a-zA-Z0-9_\-]+$")
 INSTAGRAM_USERNAME_RE = re.compile(r"^[a-zA-Z0-9_\-\.]+$")
-INSTAGRAM_DOMAIN_RE = re.compile(r"instagram.com$", re.I)
+INSTAGRAM_DOMAIN_RE = re.compile(r"(?:^|\.)instagram\.com\s*$", re.I)
 INSTAGRAM_URL_RE = re.compile(DOMAIN_TEMPLATE % r"(?:[^.]+\.)*instagram.com", re.I)
 INSTAGRAM_NOT_A_USER_SET = {
     "accounts",
@@ -57,10 +58,9 @@ def is_instagram_url(url):
         bool: Whether given url is from Instagram.
 
     """
-    if isinstance(url, SplitResult):
-        return bool(re.search(INSTAGRAM_DOMAIN_RE, url.hostname))
+    hostname = get_hostname(url)
 
-    return bool(re.match(INSTAGRAM_URL_RE, url))
+    return hostname is not None and bool(re.search(INSTAGRAM_DOMAIN_RE, hostname))
 
 
 def parse_instagram_url(url):
